@@ -241,4 +241,13 @@ theorem history (c : Cfg) (g : Glob) (hc : CfgOk c) (hm : c.failMtu = false) (hm
 theorem walk_exact (p : Nat) (hp : 0 < p) (data : List Nat) : reassemble p data (data.length + 1) 0 = data :=
   C08.reassemble_all p hp data
 
+
+/-- THE HISTORY THEOREM with the interface's attributes (MTU included: a walk continues correctly after the MTU changed) and the
+    process-wide data changing freely from frame to frame -/
+theorem history_varying (own : List Nat) (items : List (Cfg × Glob × List Nat)) (hitems : ∀ it ∈ items, ItemOk own it) (w : World) (hw : NoFault w) :
+    holdsC08 own (C05.runObsV w {} items) = true :=
+  ref_historyV own 300 holdsC08Rx (ItemOk own) (by decide) (fun _ h => h)
+    (fun c g w st img s hq hw hi hr => step_holds c g w st img s hq.1 hq.2.1 hq.2.2.1 hw hi hq.2.2.2.2 hr)
+    items w {} {} hitems hw init_inv ref_init
+
 end LLTD.C08H
